@@ -224,8 +224,7 @@ class Marginal(Generic[R], SampleDistribution):
         choices: ChoiceMap = tr.get_choices()
         latent_choices = choices.filter(self.selection)
         key, sub_key = jax.random.split(key)
-        bwd_request = ~self.selection
-        weight = tr.project(sub_key, bwd_request)
+        weight = tr.project(sub_key, self.selection)
         if self.algorithm is None:
             return weight, latent_choices
         else:
